@@ -127,6 +127,7 @@ class Run:
         self.axioms = []
         self.viol = []         # dicts: {what, replay: {...}, found_input: bool}
         self.known = []        # known-finding lines
+        self.extra_counts = {}
         self.known_hits = {}   # finding id -> times a suite/search reproduced it on this run
         self.assumptions = []
         self.evaluations = 0
@@ -253,6 +254,7 @@ class Run:
         broken = [(s, o) for s, n, b, o in res if not o]
         ok = not bad and total > 0
         st = dict(summ.get('stats', {}))
+        st.update(self.extra_counts); self.extra_counts = {}
         st.update({'cases_evaluated_in_coq': total, 'mismatching_shards': len(bad), 'shards': len(shards)})
         self.corr[name] = st
         self.evaluations += total
@@ -287,6 +289,8 @@ class Run:
             ev = parse_eval(out)
             if not ev:
                 return (s, 0, 'no answer parsed: ' + out[-300:], False)
+            for m in re.finditer(r'= \("(\w+)"(?:%string)?, (\d+)\)', ' '.join(out.split())):
+                self.extra_counts[m.group(1)] = self.extra_counts.get(m.group(1), 0) + int(m.group(2))
             n = sum(e[0] for e in ev)
             bads = [e[1] for e in ev if e[1] != '[]']
             return (s, n, bads[0] if bads else '[]', True)
